@@ -4,20 +4,33 @@ C19 — PoissonGAM exposure is equivalent to rate modelling with exposure weight
 Theorems: lean/PyGam/Props/C19.lean (conversion (y/e, w*e); omitted exposure = ones; fit/gridsearch = base
 entry point on the converted data (definitional); weighted rate deviance = count deviance at mean e*rate; PIRLS
 weights / pseudo-data of the converted data = those of the counts; predict = e * rate; np.round recovers counts;
-loglikelihood = sum of Poisson log-pmf at mean rate * exposure).
+loglikelihood = sum of Poisson log-pmf at mean rate * exposure; statistics of a fit with exposure (loglikelihood, AIC,
+AICc, UBRE, McFadden) = those of the counts at mean rate * exposure; a change of the unit of the exposure changes
+nothing but the unit of the rate; gridsearch with a finite score returns a fitted minimiser).
 
 Correspondence (model executed by the Lean driver, `C19 <op>`):
   np.cast32 / np.round     castF32 / roundHalfEven of the model vs NumPy astype('f') / np.round        (exact)
   dev.identity             PoissonDist.deviance: e*dev(y/e, r) vs dev(y, e r) vs the model              (1e-11)
   fit.rates                PoissonGAM.fit(X, y, exposure, weights) vs GAM(poisson, log).fit on the model's
-                           (rates, weights) and on NumPy's (y/e, w*e); statistics_; deviance of counts   (1e-8)
+                           (rates, weights) and on NumPy's (y/e, w*e); statistics_; deviance of counts   (1e-8);
+                           statistics_['AIC','AICc','UBRE','pseudo_r2'] vs closed forms on the COUNTS
+                           (scipy.stats.poisson.logpmf(y, e*rate), NumPy deviance, reported edof) and vs
+                           -2 loglikelihood(X, y, exposure, weights) + 2 edof                            (1e-9)
+  fit.stats                the same statistics vs the model's fitLoglik / fitAIC / fitAICc / fitUBRE /
+                           fitMcFadden(Adj) / fitExplained / fitDeviance (driver op `stats`)             (1e-9)
   fit.noexposure           exposure omitted vs exposure of ones                                         (1e-10)
   fit.offset-glm           PoissonGAM with linear terms vs an independent NumPy Newton solver of the
                            penalised Poisson regression of the counts with offset log(e)                (1e-6)
-  gridsearch               PoissonGAM.gridsearch vs GAM.gridsearch on rates / weights                   (1e-8)
+  gridsearch               PoissonGAM.gridsearch, objective in {auto, UBRE, AIC, AICc}: candidate scores vs the
+                           closed-form objective of the counts (1e-8); fitted model minimising it over independent
+                           PoissonGAM.fit candidates (1e-6); UBRE/auto: vs GAM.gridsearch on rates / weights (1e-8)
   predict                  predict(X, exposure) vs e * predict_mu(X) and vs the model                   (1e-12)
   loglik                   loglikelihood(X, y, exposure, weights) vs scipy poisson.logpmf(y, mu*e).sum()
                            (no weights) and vs the model kernel (+ SciPy's normaliser)                  (1e-10)
+
+Generators: exposure kind x exposure UNIT (exact powers of two 2^-40 … 2^40, decimal units 1e-12 … 1e12, mixtures of
+magnitudes within one data set, magnitudes around the numeric constants of the code under test — literals and named module
+constants such as EPS, their square roots and squares) x weight kind x term mix.
 
 Everything goes through pyGAM's public API (PoissonGAM / GAM / PoissonDist methods and attributes).
 """
@@ -26,6 +39,7 @@ import contextlib
 import inspect
 import io
 import math
+import multiprocessing as mp
 import random
 import textwrap
 from fractions import Fraction
@@ -105,6 +119,16 @@ def harvest_literals(pygam):
             fs.append(getattr(P, name))
     fs.append(distributions.PoissonDist.log_pdf)
     lits = set()
+    import pygam.pygam as pgmod
+    import pygam.distributions as dmod
+
+    def add(v):
+        try:
+            v = abs(float(v))
+        except Exception:  # noqa
+            return
+        if math.isfinite(v) and 1e-30 < v < 1e30:
+            lits.add(v)
     for f in fs:
         try:
             tree = ast.parse(textwrap.dedent(inspect.getsource(f)))
@@ -112,9 +136,16 @@ def harvest_literals(pygam):
             continue
         for node in ast.walk(tree):
             if isinstance(node, ast.Constant) and isinstance(node.value, (int, float)) and not isinstance(node.value, bool):
-                v = float(node.value)
-                if math.isfinite(v) and 0 < abs(v) < 1e6:
-                    lits.add(abs(v))
+                add(node.value)
+            elif isinstance(node, ast.Name):
+                # a name bound to a numeric module constant (EPS, ...) is a literal in disguise; thresholds are usually
+                # built from it by sqrt / square
+                for mod in (pgmod, dmod):
+                    v = getattr(mod, node.id, None)
+                    if isinstance(v, (int, float, np.floating, np.integer)) and not isinstance(v, (bool, np.bool_)):
+                        add(v)
+                        add(math.sqrt(abs(float(v))))
+                        add(float(v) ** 2)
     return sorted(lits)
 
 
@@ -184,11 +215,47 @@ def gen_vec(kind, n, rs, lits, what):
         for x in lits + [1.0, 2.0, 0.5]:
             f = np.float32(x)
             pool += [float(f), float(np.nextafter(f, np.float32(np.inf))), float(np.nextafter(f, np.float32(0)))]
-        pool = [p for p in pool if 1e-3 < p < 1e3]
+        # sample weights stay moderate (tiny weights are the PIRLS mask's business, not this property's); exposures are a
+        # quantity with a unit: any magnitude float32 can hold
+        pool = [p for p in pool if (1e-3 < p < 1e3 if what == 'w' else 1e-30 < p < 1e30)]
         return np.array([pool[rs.randint(len(pool))] for _ in range(n)], dtype=float)
     if kind == 'nonrep':
         return rs.randint(1, 60, n) / 10.0 + rs.rand(n) * 1e-3
     raise KeyError(kind)
+
+
+# the unit the exposure is expressed in: exact powers of two (the float32-representability of the base vector is kept), decimal
+# units 1e-12 … 1e12, and mixtures of magnitudes within one data set
+UNITS = ['p2:-40', 'p2:-30', 'p2:-20', 'p2:20', 'p2:30', 'p2:40', '1e-12', '1e-9', '1e-6', '1e6', '1e9', '1e12',
+         'mix:p2', 'mix:wide', 'mix:lit']
+
+
+def pick_unit(r):
+    return '1' if r.random() < 0.4 else UNITS[r.randrange(len(UNITS))]
+
+
+def apply_unit(e, unit, rs, lits):
+    """the exposure vector `e` (None = omitted) expressed in another unit"""
+    if e is None or unit == '1':
+        return e
+    rep = _is_f32(e)
+    n = len(e)
+    if unit.startswith('p2:'):
+        out = e * 2.0 ** int(unit[3:])
+    elif unit == 'mix:p2':
+        out = e * 2.0 ** int([-30, -20, 0, 20, 30][rs.randint(5)]) * 2.0 ** rs.randint(-6, 7, n)
+    elif unit == 'mix:wide':
+        out = e * 10.0 ** rs.uniform(-12, 12, n)
+    elif unit == 'mix:lit':
+        # magnitudes around the numeric constants of the code under test (and around 1): below, at and above each
+        pool = sorted(set([1.0] + [float(np.float32(x)) for x in lits]))
+        base = np.array([pool[rs.randint(len(pool))] for _ in range(n)])
+        out = e * base * 2.0 ** rs.randint(-3, 4, n)
+    else:
+        out = e * float(unit)
+    if rep:
+        out = out.astype('f').astype(float)
+    return np.clip(out, 1e-30, 1e30)
 
 
 def gen_data(rs, n, e, mix):
@@ -201,7 +268,7 @@ def gen_data(rs, n, e, mix):
     ee = np.ones(n) if e is None else e
     # rates are counts per unit exposure: centre them so that the counts stay moderate whatever the magnitude of e
     eta = eta - np.log(np.exp(np.mean(np.log(ee)))) + np.log(rs.uniform(1.0, 6.0))
-    mean = np.minimum(ee * np.exp(eta), 1e6)
+    mean = np.minimum(ee * np.exp(eta), 1e15)
     y = rs.poisson(mean).astype(float)
     return X, y
 
@@ -218,7 +285,13 @@ def make_case(seed, stream, idx, tier, lits, force=None):
     n = force.get('n', [24, 40, 60, 90][r.randrange(4)] if tier == 'quick' else [24, 40, 60, 90, 150, 250][r.randrange(6)])
     lam = force.get('lam', [0.05, 0.6, 0.6, 5.0, 40.0][r.randrange(5)])
     ns = force.get('ns', [5, 6, 8, 10][r.randrange(4)])
-    e = gen_vec(ek, n, rs, lits, 'e')
+    ru = _subrng(seed, stream, idx, 'unit')
+    rsu = np.random.RandomState(ru.getrandbits(32))
+    unit = force.get('unit', pick_unit(ru))
+    unit2 = force.get('unit2', pick_unit(ru))
+    if ek == 'none':
+        unit = '1'
+    e = apply_unit(gen_vec(ek, n, rs, lits, 'e'), unit, rsu, lits)
     w = gen_vec(wk, n, rs, lits, 'w')
     X, y = gen_data(rs, n, e, mix)
     ydtype = ['float', 'int', 'list'][r.randrange(3)]
@@ -226,22 +299,24 @@ def make_case(seed, stream, idx, tier, lits, force=None):
     n2 = [1, 7, 20][r.randrange(3)]
     ek2 = EXPO_KINDS[r.randrange(len(EXPO_KINDS))]
     wk2 = WEIGHT_KINDS[r.randrange(len(WEIGHT_KINDS))]
-    e2 = gen_vec(ek2, n2, rs, lits, 'e')
+    if ek2 == 'none':
+        unit2 = '1'
+    e2 = apply_unit(gen_vec(ek2, n2, rs, lits, 'e'), unit2, rsu, lits)
     w2 = gen_vec(wk2, n2, rs, lits, 'w')
     X2, y2 = gen_data(rs, n2, e2, mix)
-    return dict(stream=stream, idx=idx, ek=ek, wk=wk, mix=mix, n=n, lam=lam, ns=ns, ydtype=ydtype,
+    return dict(stream=stream, idx=idx, ek=ek, wk=wk, mix=mix, n=n, lam=lam, ns=ns, ydtype=ydtype, unit=unit, unit2=unit2,
                 X=X, y=y, e=e, w=w, n2=n2, ek2=ek2, wk2=wk2, X2=X2, y2=y2, e2=e2, w2=w2)
 
 
 def case_sig(c, **extra):
-    d = dict(ek=c['ek'], wk=c['wk'], mix=c['mix'], n=c['n'], lam=c['lam'], ns=c['ns'], idx=c['idx'])
+    d = dict(ek=c['ek'], wk=c['wk'], mix=c['mix'], n=c['n'], lam=c['lam'], ns=c['ns'], idx=c['idx'], unit=c['unit'])
     d.update(extra)
     return d
 
 
 def case_replay(seed, c, **extra):
     d = dict(seed=seed, stream=c['stream'], idx=c['idx'], force=dict(ek=c['ek'], wk=c['wk'], mix=c['mix'], n=c['n'],
-                                                                     lam=c['lam'], ns=c['ns']))
+                                                                     lam=c['lam'], ns=c['ns'], unit=c['unit'], unit2=c['unit2']))
     d.update(extra)
     return d
 
@@ -299,19 +374,179 @@ def eff(v, n):
     return np.ones(n) if v is None else np.asarray(v, dtype=float)
 
 
+def _num(x):
+    """float(x), NaN when the library handed out something that is not a number"""
+    try:
+        v = np.asarray(x, dtype=float)
+        return float(v) if v.ndim == 0 else (float(v.ravel()[0]) if v.size == 1 else float('nan'))
+    except Exception:  # noqa
+        return float('nan')
+
+
+GAMMA = 1.4     # default of GAM._estimate_GCV_UBRE (documented)
+
+
+def f32_product(w64, e64):
+    """the weight the base fit works with: the product w e rounded to float32 (every GAM.fit casts its weights to float32)"""
+    return (w64.astype('f').astype(float) * e64.astype('f').astype(float)).astype('f').astype(float)
+
+
+def eff_weights(w64, e64):
+    """sample weights such that (weights) x (float32 exposure) is exactly the float32 weight of the base fit: w itself whenever
+    the product w e is a float32 number (always when w = 1), else w (1 + O(6e-8))"""
+    e32 = e64.astype('f').astype(float)
+    with np.errstate(all='ignore'):
+        return np.where(e32 > 0, f32_product(w64, e64) / e32, w64.astype('f').astype(float))
+
+
+def count_loglik(y, rate, e64, w64):
+    """(closed-form log-likelihood, absolute scale of its rounding error, kind): the Poisson log-probability of the observed
+    counts at mean rate x exposure.  Without sample weights that is the sentence of the property; integer sample weights w
+    replicate an observation w times, which the code expresses as the count y w at mean rate e w (theorem
+    loglikelihood_general) -- kind 'weighted' is then only a model statement, not the property's."""
+    unweighted = bool(np.all(w64 == 1.0))
+    if unweighted:
+        k, m = np.asarray(y, dtype=float), rate * e64
+    else:
+        wc = f32_product(w64, e64)
+        with np.errstate(all='ignore'):
+            k, m = np.round(np.asarray(y, dtype=float) / e64.astype('f').astype(float) * wc), rate * wc
+    with np.errstate(all='ignore'):
+        ll = float(np.sum(scipy.stats.poisson.logpmf(k, m)))
+        sc = float(np.sum(np.abs(k * np.log(np.maximum(m, 1e-300))) + m + scipy.special.gammaln(k + 1))) + 1.0
+    return ll, sc, ('unweighted' if unweighted else 'weighted')
+
+
+def count_objectives(n, ll, dev, edof):
+    """AIC, AICc, UBRE of a Poisson model (known scale 1) from the log-likelihood / deviance of the counts and the edof"""
+    aic = -2.0 * ll + 2.0 * edof
+    with np.errstate(all='ignore'):
+        aicc = aic + 2.0 * (edof + 1) * (edof + 2) / (n - edof - 2)
+    ubre = 1.0 / n * dev + 2.0 * GAMMA / n * edof
+    return dict(AIC=aic, AICc=aicc, UBRE=ubre)
+
+
+def stat_oracle(c, a, rate, ll_pub):
+    """statistics_ entries derived from the log-likelihood / deviance of a PoissonGAM fitted with exposure vs closed forms
+    (scipy.stats.poisson.logpmf of the counts at e * rate, NumPy deviance of the counts, the reported edof).
+    Returns (bad | None, info)."""
+    n = c['n']
+    y = np.asarray(c['y'], dtype=float)
+    e64, w64 = eff(c['e'], n), eff(c['w'], n)
+    rep = _is_f32(e64) and _is_f32(w64)
+    e32, w32 = e64.astype('f').astype(float), w64.astype('f').astype(float)
+    st = a.statistics_
+    edof = _num(st.get('edof'))
+    info = dict()
+    if not (np.isfinite(edof) and np.all(np.isfinite(rate))):
+        return None, dict(skipped='non-finite edof / rate')
+    reltol = 1e-9 if rep else 1e-5
+    ll, sc, kind = count_loglik(y, rate, e64, w64)
+    info['kind'] = kind
+    weff = eff_weights(w64, e64)
+    dev = float(np.sum(weff * np_poisson_dev(y, e32 * rate)))
+    got = dict(AIC=_num(st.get('AIC')), AICc=_num(st.get('AICc')), UBRE=_num(st.get('UBRE')))
+    r2 = st.get('pseudo_r2') or {}
+    try:
+        got.update(McFadden=_num(r2.get('McFadden')), McFadden_adj=_num(r2.get('McFadden_adj')),
+                   explained_deviance=_num(r2.get('explained_deviance')))
+    except Exception:  # noqa
+        got.update(McFadden=float('nan'), McFadden_adj=float('nan'), explained_deviance=float('nan'))
+    bad = None
+
+    scales = info.setdefault('scales', {})
+
+    def check(name, g, w, abs_scale, why):
+        nonlocal bad
+        if np.isfinite(abs_scale):
+            scales[name] = max(scales.get(name, 0.0), float(abs_scale))
+        if bad is not None:
+            return
+        if not np.isfinite(w):
+            info.setdefault('nonfinite', []).append(name)
+            return
+        if not (np.isfinite(g) and abs(g - w) <= 10 * reltol * abs_scale):
+            bad = dict(reason="statistics_[%r] is not %s" % (name, why), got=g, want=w, tol=10 * reltol * abs_scale, weights=kind)
+    # (a) consistency with the public log-likelihood of the training data (any weights): AIC = -2 loglik + 2 edof
+    if np.isfinite(ll_pub):
+        ob = count_objectives(n, ll_pub, dev, edof)
+        check('AIC', got['AIC'], ob['AIC'], 2 * sc + 2 * abs(edof), '-2 loglikelihood(X, y, exposure, weights) + 2 edof')
+        check('AICc', got['AICc'], ob['AICc'], 2 * sc + abs(ob['AICc'] - ob['AIC']) + 2 * abs(edof),
+              'AIC + 2 (edof+1)(edof+2)/(n-edof-2) with AIC = -2 loglikelihood(X, y, exposure, weights) + 2 edof')
+    # (b) closed forms on the counts
+    ob = count_objectives(n, ll, dev, edof)
+    info['closed'] = ob
+    if kind == 'unweighted':
+        check('AIC', got['AIC'], ob['AIC'], 2 * sc + 2 * abs(edof), '-2 sum poisson.logpmf(y, e*rate) + 2 edof')
+        check('AICc', got['AICc'], ob['AICc'], 2 * sc + abs(ob['AICc'] - ob['AIC']) + 2 * abs(edof),
+              '-2 sum poisson.logpmf(y, e*rate) + 2 edof + 2 (edof+1)(edof+2)/(n-edof-2)')
+    check('UBRE', got['UBRE'], ob['UBRE'], abs(dev) / n + abs(ob['UBRE']) + 1e-300,
+          'deviance of the counts at e*rate / n + 2 gamma edof / n')
+    # pseudo R^2: the null model is the constant rate mean(y/e) (documented: "the null model is the unweighted mean")
+    null_rate = float(np.mean(y / e32)) * np.ones(n)
+    ll0, sc0, _ = count_loglik(y, null_rate, e64, w64)
+    dev0 = float(np.sum(weff * np_poisson_dev(y, e32 * null_rate)))
+    info['null'] = dict(ll0=ll0, dev0=dev0)
+    with np.errstate(all='ignore'):
+        if np.isfinite(ll0) and ll0 != 0 and np.isfinite(ll):
+            amp = (sc + sc0 * abs(ll / ll0)) / abs(ll0)     # |d(1 - ll/ll0)| for relative errors of the two sums
+            scales['McFadden'] = amp + 1.0
+            scales['McFadden_adj'] = amp + abs(edof / ll0) + 1.0
+            if kind == 'unweighted':
+                check('McFadden', got['McFadden'], 1.0 - ll / ll0, amp + 1.0, '1 - loglik(counts at e*rate) / loglik(counts at e*mean(y/e))')
+                check('McFadden_adj', got['McFadden_adj'], 1.0 - (ll - edof) / ll0, amp + abs(edof / ll0) + 1.0,
+                      '1 - (loglik(counts at e*rate) - edof) / loglik(counts at e*mean(y/e))')
+            else:
+                info['mcfadden_model_only'] = (got['McFadden'], 1.0 - ll / ll0)
+        if np.isfinite(dev0) and dev0 > 0:
+            check('explained_deviance', got['explained_deviance'], 1.0 - dev / dev0, abs(dev / dev0) + 1.0,
+                  '1 - deviance(counts at e*rate) / deviance(counts at e*mean(y/e))')
+    info['got'] = got
+    info['ll_scale'] = sc
+    info['dev'] = dev
+    return bad, info
+
+
+class PoissonFitError(Exception):
+    """PoissonGAM.fit itself raised (as opposed to one of the oracle's fits)"""
+
+
+def _in_library(ex):
+    import os
+    import traceback
+    repo = os.path.realpath(common.REPO)
+    e = ex
+    while e is not None:
+        for fr in traceback.extract_tb(e.__traceback__):
+            if os.path.realpath(fr.filename).startswith(repo + os.sep):
+                return True
+        e = e.__cause__ or e.__context__
+    return False
+
+
 def eval_fit_case(pygam, c, max_iter, model_line):
     """returns dict(bad=…|None, disagree=…|None, info…) for one fit case; `model_line` is the driver's answer"""
     n = c['n']
     out = dict(bad=None, disagree=None)
-    a = fit_poisson(pygam, c, max_iter)
+    try:
+        a = fit_poisson(pygam, c, max_iter)
+    except Exception as ex:  # noqa
+        raise PoissonFitError(ex)
     e64, w64 = eff(c['e'], n), eff(c['w'], n)
     rep = _is_f32(e64) and _is_f32(w64)
     out['rep'] = rep
+
+    def vs_base(rates, weights):
+        """difference to the base-class fit on (rates, weights); inf when that fit raises although PoissonGAM.fit did not"""
+        try:
+            return model_compare(a, fit_base(pygam, c, max_iter, rates, weights), c['X'])
+        except Exception as ex:  # noqa
+            out.setdefault('base_exceptions', []).append(type(ex).__name__)
+            return float('inf')
     # --- model tie
     rates_s, weights_s = model_line.split('|')
     mr, mw = _qvec_to_f(rates_s), _qvec_to_f(weights_s)
-    bm = fit_base(pygam, c, max_iter, mr, mw)
-    d_model = model_compare(a, bm, c['X'])
+    d_model = vs_base(mr, mw)
     out['d_model'] = d_model
     # --- independent oracle: rates y/e with weights w*e in NumPy
     orates, oweights = c['y'] / e64, w64 * e64
@@ -319,33 +554,44 @@ def eval_fit_case(pygam, c, max_iter, model_line):
         d_or = d_model
         out['oracle_same_args'] = True
     else:
-        bo = fit_base(pygam, c, max_iter, orates, oweights)
-        d_or = model_compare(a, bo, c['X'])
+        d_or = vs_base(orates, oweights)
         out['oracle_same_args'] = False
     out['d_oracle'] = d_or
     tol_or = 1e-8 if rep else 1e-5
+    # exposure / weights that are not float32 numbers: the code rounds them to float32 (6e-8 relative); a fit that does not
+    # settle (a diverging PIRLS run at rates of 1e12, say) amplifies that perturbation without bound, so a large d_oracle is
+    # only a failure when the fit also differs from the one on the NumPy-rounded arguments (y / f32(e), f32(w) f32(e))
+    d_cast = d_or
+    if not rep and d_or > tol_or:
+        e32_, w32_ = e64.astype('f').astype(float), w64.astype('f').astype(float)
+        d_cast = vs_base(c['y'] / e32_, w32_ * e32_)
+    out['d_cast'] = d_cast
     # --- statistic: deviance is the weighted Poisson deviance of the *counts* at mean e*rate (theorem)
-    rate = a.predict_mu(c['X'])
+    rate = np.asarray(a.predict_mu(c['X']), dtype=float)
     e32 = e64.astype('f').astype(float)
     w32 = w64.astype('f').astype(float)
-    keep = np.abs(w32 * e32) >= np.sqrt(np.finfo(float).eps)
-    dev_counts = float(np.sum((w32 * np_poisson_dev(c['y'], e32 * rate))[keep]))
-    d_dev = _maxrel([a.statistics_['deviance']], [dev_counts])
+    # (no mask: the statistic is the plain weighted sum, whatever the magnitude of the weights w*e; a zero weight gives a zero term)
+    dev_counts = float(np.sum(eff_weights(w64, e64) * np_poisson_dev(c['y'], e32 * rate)))
+    d_dev = _maxrel([_num(a.statistics_.get('deviance'))], [dev_counts])
     out['d_dev'] = d_dev
     # --- statistics_['loglikelihood'] is the public loglikelihood at the training data
-    ll_stat = float(a.statistics_['loglikelihood'])
+    ll_stat = _num(a.statistics_.get('loglikelihood'))
     ll_pub = float(a.loglikelihood(c['X'], y_as(c), exposure=c['e'], weights=c['w']))
     d_ll = _maxrel([ll_stat], [ll_pub])
     out['d_llstat'] = d_ll
-    if d_or > 10 * tol_or:
+    # --- every statistic derived from the log-likelihood / deviance is the one of the COUNTS at mean rate x exposure
+    out['stats_bad'], out['stats_info'] = stat_oracle(c, a, rate, ll_pub)
+    if d_or > 10 * tol_or and (rep or d_cast > 1e-7):
         out['bad'] = dict(reason='PoissonGAM.fit(X, y, exposure=e, weights=w) differs from GAM(poisson, log).fit(X, y/e, weights=w*e)',
-                          max_rel_diff=d_or, tol=tol_or)
+                          max_rel_diff=d_or, tol=tol_or, vs_float32_rounded_arguments=d_cast)
     elif d_dev > 1e-7:
         out['bad'] = dict(reason="statistics_['deviance'] is not the weighted Poisson deviance of the counts at mean e*rate",
                           got=float(a.statistics_['deviance']), want=dev_counts)
     elif d_ll > 1e-9:
         out['bad'] = dict(reason="statistics_['loglikelihood'] differs from loglikelihood(X, y, exposure, weights)",
                           got=ll_stat, want=ll_pub)
+    elif out['stats_bad'] is not None:
+        out['bad'] = out['stats_bad']
     elif d_model > 1e-8 or (rep and d_or > tol_or):
         # (exposure / weights that are not float32-representable: the NumPy oracle's arguments differ from the code's by
         # float32 rounding, amplified by the conditioning of the fit; between tol and 10 tol that is counted by the
@@ -371,14 +617,16 @@ def run_fit(ctx, pygam, lits, cases=None):
     ops = ['C19 fit %d | %s | %s | %s' % (c['n'], _vec_q(c['y']), _opt_q(c['e']), _opt_q(c['w'])) for c in cases]
     outs = ctx.driver.run(ops)
     fitted = []
+    stat_items = []
     for c, line in zip(cases, outs):
         ctx.count('exposure kind', c['ek'])
         ctx.count('weight kind', c['wk'])
         ctx.count('term mix', c['mix'])
         ctx.count('n', c['n'])
         sig = case_sig(c)
-        nontriv = c['ek'] not in ('none', 'ones')
-        ctx.case(st, sig, nontrivial=nontriv, sample=dict(ek=c['ek'], wk=c['wk'], mix=c['mix'], n=c['n'],
+        nontriv = c['ek'] not in ('none', 'ones') or c['unit'] != '1'
+        ctx.count('exposure unit', c['unit'])
+        ctx.case(st, sig, nontrivial=nontriv, sample=dict(ek=c['ek'], wk=c['wk'], mix=c['mix'], n=c['n'], unit=c['unit'],
                                                          e=None if c['e'] is None else c['e'][:4].tolist(), y=c['y'][:4].tolist()))
         if line == 'bad-op':
             ctx.disagree(st, sig, 'fit', 'bad-op', 'driver rejected the operation')
@@ -386,24 +634,35 @@ def run_fit(ctx, pygam, lits, cases=None):
         try:
             r = eval_fit_case(pygam, c, max_iter, line)
         except Exception as ex:  # noqa
-            ctx.count('fit exception', type(ex).__name__)
+            ctx.count('fit exception', type(ex.args[0]).__name__ if isinstance(ex, PoissonFitError) and ex.args else type(ex).__name__)
             r2 = None
             try:
                 r2 = eval_fit_case(pygam, c, max_iter, line)
-            except Exception as ex2:  # noqa
+            except PoissonFitError as ex2:
+                orig = ex2.args[0] if ex2.args else ex2
                 # does the base fit on the rates fail as well?  then it is not about exposure
                 try:
                     n = c['n']
-                    fit_base(pygam, c, max_iter, c['y'] / eff(c['e'], n), eff(c['w'], n) * eff(c['e'], n))
+                    # (on the float32-rounded arguments the code works with: a diverging run is not robust to the 6e-8 rounding)
+                    e32_ = eff(c['e'], n).astype('f').astype(float)
+                    fit_base(pygam, c, max_iter, c['y'] / e32_, f32_product(eff(c['w'], n), eff(c['e'], n)))
                     base_ok = True
                 except Exception:  # noqa
                     base_ok = False
                 if base_ok:
-                    ctx.fail(st, sig, case_replay(ctx.seed, c), observed=dict(exception=type(ex2).__name__, msg=str(ex2)[:200]),
+                    ctx.fail(st, sig, case_replay(ctx.seed, c), observed=dict(exception=type(orig).__name__, msg=str(orig)[:200]),
                              expected='PoissonGAM.fit succeeds whenever the GAM fit of the rates with weights w*e does',
                              oracle='GAM(distribution=poisson, link=log).fit(X, y/e, weights=w*e)')
                 else:
-                    ctx.count('both fits fail', type(ex2).__name__)
+                    ctx.count('both fits fail', type(orig).__name__)
+                continue
+            except Exception as ex2:  # noqa
+                if not _in_library(ex2):
+                    raise
+                # the fit went through; a public method or statistic of the fitted model raised on the training data
+                ctx.fail(st, sig, case_replay(ctx.seed, c), observed=dict(exception=type(ex2).__name__, msg=str(ex2)[:200]),
+                         expected='statistics / loglikelihood of the fitted model are numbers',
+                         oracle='a PoissonGAM fitted with exposure answers loglikelihood(X, y, exposure, weights)')
                 continue
             r = r2
         if not r['rep']:
@@ -420,8 +679,79 @@ def run_fit(ctx, pygam, lits, cases=None):
         elif r['disagree'] is not None:
             ctx.disagree(st, sig, r['disagree'], 'model (rates, weights) fit', 'fit on model arguments differs beyond 1e-8')
         fitted.append((c, r['model']))
+        stat_items.append((c, r['model'], r.get('stats_info') or {}))
+    run_fit_stats(ctx, stat_items)
     run_predict_loglik(ctx, pygam, fitted, st_p, st_l)
     return fitted
+
+
+def run_fit_stats(ctx, items):
+    """model tie of the statistics of a fit with exposure: Lean `fitLoglik / fitAIC / fitAICc / fitUBRE / fitMcFadden /
+    fitMcFaddenAdj / fitExplained / fitDeviance` (driver op `stats`) vs statistics_ of the real fit"""
+    st = 'fit.stats'
+    ctx.stream(st, "statistics_['loglikelihood','AIC','AICc','UBRE','pseudo_r2','deviance'] of PoissonGAM.fit(X,y,exposure,weights) "
+                   "vs the model's fitLoglik/fitAIC/fitAICc/fitUBRE/fitMcFadden(Adj)/fitExplained/fitDeviance at predict_mu(X) and the "
+                   "reported edof (SciPy gammaln as the normaliser), 1e-9 of the magnitude of the sums")
+    ops, plan = [], []
+    for c, g, info in items:
+        n = c['n']
+        try:
+            rate = np.asarray(g.predict_mu(c['X']), dtype=float)
+            edof = _num(g.statistics_.get('edof'))
+        except Exception:  # noqa
+            continue
+        if rate.shape != (n,) or not (np.all(np.isfinite(rate)) and np.isfinite(edof)):
+            ctx.count('fit.stats skipped', 'non-finite rate / edof')
+            continue
+        e64, w64 = eff(c['e'], n), eff(c['w'], n)
+        with np.errstate(all='ignore'):
+            ks = np.unique(np.round(np.asarray(c['y'], dtype=float) / e64.astype('f').astype(float) * f32_product(w64, e64)))
+        ks = ks[np.isfinite(ks)]
+        ns = scipy.special.gammaln(ks + 1)
+        ops.append('C19 stats %d | %s | %s | %s | %s | %s | %s | %s' % (n, _vec_b(rate), _vec_b(c['y']), _opt_b(c['e']), _opt_b(c['w']),
+                                                                  f2bits(edof), _vec_b(ks), _vec_b(ns)))
+        plan.append((c, g, info))
+    outs = ctx.driver.run(ops) if ops else []
+    names = ['loglikelihood', 'AIC', 'AICc', 'UBRE', 'McFadden', 'McFadden_adj', 'explained_deviance', 'deviance']
+    for (c, g, info), line in zip(plan, outs):
+        sig = case_sig(c)
+        ctx.case(st, sig, nontrivial=c['ek'] not in ('none', 'ones') or c['unit'] != '1' or c['wk'] not in ('none', 'ones'))
+        if line == 'bad-op':
+            ctx.disagree(st, sig, 'stats', 'bad-op', 'driver rejected the operation')
+            continue
+        model = dict(zip(names, [bits2f(t) for t in line.split()]))
+        stt = g.statistics_
+        r2 = stt.get('pseudo_r2') or {}
+        got = dict(loglikelihood=_num(stt.get('loglikelihood')), AIC=_num(stt.get('AIC')), AICc=_num(stt.get('AICc')),
+                   UBRE=_num(stt.get('UBRE')), deviance=_num(stt.get('deviance')))
+        for k in ('McFadden', 'McFadden_adj', 'explained_deviance'):
+            try:
+                got[k] = _num(r2.get(k))
+            except Exception:  # noqa
+                got[k] = float('nan')
+        sc = dict(info.get('scales') or {})
+        llsc = float(info.get('ll_scale') or 1.0)
+        sc.setdefault('AIC', 2 * llsc + 2 * abs(_num(stt.get('edof'))))
+        sc.setdefault('AICc', sc['AIC'] + abs(got['AICc'] - got['AIC']) if np.isfinite(got['AICc'] - got['AIC']) else sc['AIC'])
+        sc['loglikelihood'] = llsc
+        sc['deviance'] = abs(float(info.get('dev') or 0.0)) + 1.0
+        worst = None
+        for k in names:
+            a_, m_ = got[k], model[k]
+            if not (np.isfinite(a_) and np.isfinite(m_)):
+                if not ((a_ == m_) or (a_ != a_ and m_ != m_)):
+                    # non-finite on one side only; McFadden / explained deviance have 0/0 forms whose NaN-ness both sides share
+                    worst = (k, a_, m_, float('inf'))
+                    break
+                continue
+            scale = sc.get(k)
+            if scale is None or not np.isfinite(scale):
+                scale = max(1.0, abs(a_), abs(m_))
+            d = abs(a_ - m_) / scale
+            if d > 1e-9 and (worst is None or d > worst[3]):
+                worst = (k, a_, m_, d)
+        if worst is not None:
+            ctx.disagree(st, sig, {worst[0]: worst[1]}, {worst[0]: worst[2]}, 'statistic %s: rel %g' % (worst[0], worst[3]))
 
 
 def run_predict_loglik(ctx, pygam, fitted, st_p, st_l):
@@ -448,9 +778,11 @@ def run_predict_loglik(ctx, pygam, fitted, st_p, st_l):
     for (kind, c, g, which, X, y, e, w, n, rate), line in zip(plan, outs):
         ek = c['ek'] if which == 'train' else c['ek2']
         wk = c['wk'] if which == 'train' else c['wk2']
-        sig = case_sig(c, which=which, ek=ek, wk=wk)
+        unit = c['unit'] if which == 'train' else c['unit2']
+        sig = case_sig(c, which=which, ek=ek, wk=wk, unit=unit)
         if kind == 'predict':
-            ctx.case(st_p, sig, nontrivial=ek not in ('none', 'ones'))
+            ctx.case(st_p, sig, nontrivial=ek not in ('none', 'ones') or unit != '1')
+            ctx.count('predict exposure unit', unit)
             ctx.count('predict exposure kind', ek)
 
             def ev():
@@ -480,7 +812,8 @@ def run_predict_loglik(ctx, pygam, fitted, st_p, st_l):
                 ctx.disagree(st_p, sig, got[:5].tolist(), model[:5].tolist(), 'd_model=%g d_oracle=%g' % (d_m, d_or))
         else:
             yi = np.asarray(y, dtype=float)
-            ctx.case(st_l, sig, nontrivial=ek not in ('none', 'ones') or wk not in ('none', 'ones'))
+            ctx.case(st_l, sig, nontrivial=ek not in ('none', 'ones') or wk not in ('none', 'ones') or unit != '1')
+            ctx.count('loglik exposure unit', unit)
             ctx.count('loglik weight kind', wk)
             yy = yi.astype(np.int64) if c['ydtype'] == 'int' else ([float(v) for v in yi] if c['ydtype'] == 'list' else yi)
 
@@ -607,7 +940,8 @@ def run_offset_glm(ctx, pygam, lits, idxs=None):
                                                                         wk='dyadic' if c['wk'] == 'nonrep' else c['wk']))
         n = c['n']
         sig = case_sig(c)
-        ctx.case(st, sig, nontrivial=c['ek'] not in ('none', 'ones'))
+        ctx.case(st, sig, nontrivial=c['ek'] not in ('none', 'ones') or c['unit'] != '1')
+        ctx.count('offset-glm exposure unit', c['unit'])
         e64, w64 = eff(c['e'], n), eff(c['w'], n)
         if int(np.sum((c['y'] > 0) & (w64 > 0))) < 5:
             ctx.count('offset-glm degenerate counts skipped', 1)
@@ -638,65 +972,246 @@ def run_offset_glm(ctx, pygam, lits, idxs=None):
             ctx.disagree(st, sig, np.asarray(g.coef_).tolist(), b.tolist(), 'rel diff %g' % d)
 
 
-def run_gridsearch(ctx, pygam, lits, idxs=None):
-    st = 'gridsearch'
-    ctx.stream(st, 'PoissonGAM.gridsearch(X,y,exposure,weights,lam=grid) vs GAM(poisson,log).gridsearch(X,y/e,weights=w*e): '
-                   'chosen lam, coef_, scores (1e-8)')
-    ncase = 30 if ctx.tier == 'quick' else 120
-    max_iter = 30 if ctx.tier == 'quick' else 100
-    idxs = range(ncase) if idxs is None else idxs
-    for i in idxs:
-        c = make_case(ctx.seed, st, i, ctx.tier, lits, force=dict(n=[30, 50][i % 2], ns=6))
-        if c['mix'] in ('s0+s1+f2', 's1+te02'):
-            c = make_case(ctx.seed, st, i, ctx.tier, lits, force=dict(n=[30, 50][i % 2], ns=6, mix='s0+l1'))
-        n = c['n']
-        r = _subrng(ctx.seed, st, i, 'grid')
-        grid = sorted(set([[0.01, 0.1, 1.0, 10.0, 100.0][r.randrange(5)] for _ in range(3)] + [0.6]))
-        ret_scores = (i % 3 == 2)
-        objective = ['auto', 'UBRE', 'AIC'][i % 3] if not ret_scores else 'auto'
-        sig = case_sig(c, grid=grid, ret=ret_scores, objective=objective)
-        ctx.case(st, sig, nontrivial=c['ek'] not in ('none', 'ones'))
-        e64, w64 = eff(c['e'], n), eff(c['w'], n)
-        rep = _is_f32(e64) and _is_f32(w64)
-        e32, w32 = e64.astype('f').astype(float), w64.astype('f').astype(float)
+GS_OBJECTIVES = ['auto', 'UBRE', 'AIC', 'AICc']
 
-        def ev():
-            terms, fi = build_terms(pygam, c['mix'], c['lam'], c['ns'])
-            a = pygam.PoissonGAM(terms, tol=1e-10, max_iter=max_iter, fit_intercept=fi)
-            ra = a.gridsearch(c['X'], y_as(c), exposure=c['e'], weights=c['w'], lam=grid, return_scores=ret_scores,
-                              objective=objective, progress=False)
-            res = []
+
+def model_objective(g, objective, X, y, yy, e, w, n):
+    """closed-form value of the gridsearch objective of the fitted PoissonGAM `g` for the counts y, exposure e, weights w:
+    from scipy.stats.poisson.logpmf of the counts at e * rate (without sample weights; with them the public
+    loglikelihood(X, y, exposure, weights), itself checked in stream loglik), the NumPy deviance of the counts and g's edof.
+    Returns (value, absolute scale of its rounding error)."""
+    e64, w64 = eff(e, n), eff(w, n)
+    rate = np.asarray(g.predict_mu(X), dtype=float)
+    edof = _num(g.statistics_.get('edof'))
+    ll, sc, kind = count_loglik(y, rate, e64, w64)
+    if kind != 'unweighted':
+        ll = float(g.loglikelihood(X, yy, exposure=e, weights=w))
+    e32 = e64.astype('f').astype(float)
+    dev = float(np.sum(eff_weights(w64, e64) * np_poisson_dev(y, e32 * rate)))
+    ob = count_objectives(n, ll, dev, edof)
+    name = 'UBRE' if objective == 'auto' else objective
+    v = ob[name]
+    scale = (abs(dev) / n + abs(v)) if name == 'UBRE' else (2 * sc + abs(v - ob['AIC']) + 2 * abs(edof))
+    return v, scale + 1e-300
+
+
+def gs_setup(seed, i, tier, lits):
+    """case number i of the gridsearch stream: (case, grid, objective, return_scores, max_iter)"""
+    st = 'gridsearch'
+    max_iter = 60 if tier == 'quick' else 150
+    c = make_case(seed, st, i, tier, lits, force=dict(n=[30, 50][i % 2], ns=6))
+    if c['mix'] in ('s0+s1+f2', 's1+te02'):
+        c = make_case(seed, st, i, tier, lits, force=dict(n=[30, 50][i % 2], ns=6, mix='s0+l1'))
+    n = c['n']
+    r = _subrng(seed, st, i, 'grid')
+    grid = sorted(set([[0.01, 0.1, 1.0, 10.0, 100.0][r.randrange(5)] for _ in range(3)] + [0.6]))
+    objective = GS_OBJECTIVES[i % 4]
+    ret_scores = ((i // 4) % 2 == 1)
+    return c, grid, objective, ret_scores, max_iter
+
+
+def gs_eval(job):
+    """evaluate one gridsearch case (runs in a worker process): dict(res=…, res2=… (re-execution when bad), exc=…, fail_exc=…)"""
+    seed, i, tier, lits = job
+    with contextlib.redirect_stdout(io.StringIO()):
+        return _gs_eval(seed, i, tier, lits)
+
+
+def _gs_eval(seed, i, tier, lits):
+    pygam = common.import_pygam()
+    c, grid, objective, ret_scores, max_iter = gs_setup(seed, i, tier, lits)
+    n = c['n']
+    e64, w64 = eff(c['e'], n), eff(c['w'], n)
+    rep = _is_f32(e64) and _is_f32(w64)
+    e32, w32 = e64.astype('f').astype(float), w64.astype('f').astype(float)
+    yy = y_as(c)
+
+    def new_poisson(lam=None):
+        terms, fi = build_terms(pygam, c['mix'], c['lam'] if lam is None else lam, c['ns'])
+        return pygam.PoissonGAM(terms, tol=1e-10, max_iter=max_iter, fit_intercept=fi)
+
+    def settled(g):
+        # (PIRLS steps of spline models stall at a relative size of ~1e-7, the noise floor of the sqrt(eps)-regularised
+        # QR/SVD step, so tol=1e-10 is often never met; 'settled' = the last step was that small)
+        d = g.logs_.get('diffs', [])
+        return len(d) > 0 and np.isfinite(d[-1]) and d[-1] < 1e-6
+
+    def ev():
+        """dict(bad=…|None, notes=[…], d32=…)"""
+        res = dict(bad=None, notes=[], d32=0.0)
+        oname = 'UBRE' if objective == 'auto' else objective     # known scale: 'auto' is UBRE
+        a = new_poisson()
+        ra = a.gridsearch(c['X'], yy, exposure=c['e'], weights=c['w'], lam=grid, return_scores=ret_scores,
+                          objective=objective, progress=False)
+        # ---- (i) / (ii): closed forms, independent candidates
+        def candidates():
+            """independent candidates: one cold PoissonGAM.fit per grid point -> (lam, objective, scale, settled, model)"""
+            cand = []
+            for lam in grid:
+                try:
+                    g = new_poisson(lam).fit(c['X'], yy, exposure=c['e'], weights=c['w'])
+                    v, scale = model_objective(g, objective, c['X'], c['y'], yy, c['e'], c['w'], n)
+                    cand.append((lam, v, scale, settled(g), g))
+                except Exception as ex:  # noqa
+                    res['notes'].append('candidate fit exception ' + type(ex).__name__)
+            return cand
+        if ret_scores:
+            if not hasattr(ra, 'items'):
+                # "No models were fitted": documented when every candidate raises
+                finite = [t for t in candidates() if np.isfinite(t[1])]
+                if finite:
+                    res['bad'] = dict(reason='gridsearch(return_scores=True) returned no scores although candidates can be fitted',
+                                      returned=type(ra).__name__, candidates=[(t[0], t[1]) for t in finite])
+                else:
+                    res['notes'].append('no candidate fits')
+                return res
+            if len(ra) > len(grid):
+                res['bad'] = dict(reason='more scores than candidates', n_scores=len(ra), n_grid=len(grid))
+                return res
+            res['notes'].append('candidates scored: %d of %d' % (len(ra), len(grid)))
+            for g, score in ra.items():
+                want, scale = model_objective(g, objective, c['X'], c['y'], yy, c['e'], c['w'], n)
+                got = _num(score)
+                tol = (1e-8 if rep else 1e-5) * scale
+                if np.isfinite(want) and not (np.isfinite(got) and abs(got - want) <= 10 * tol):
+                    res['bad'] = dict(reason='score of a candidate is not the %s of the counts at mean rate x exposure' % oname,
+                                      lam=np.ravel(g.lam).tolist()[:3], score=got, closed_form=want, tol=10 * tol)
+                    return res
+        else:
+            cand = candidates()
+            finite = [t for t in cand if np.isfinite(t[1])]
+            try:
+                a.predict_mu(c['X'])
+                fitted = True
+            except Exception:  # noqa
+                fitted = False
+            if not fitted:
+                if finite:
+                    res['bad'] = dict(reason='gridsearch returned an unfitted model although candidates can be fitted and have a '
+                                             'finite %s' % oname, candidates=[(t[0], t[1]) for t in finite])
+                else:
+                    res['notes'].append('no candidate fits')
+                return res
+            va, sa = model_objective(a, objective, c['X'], c['y'], yy, c['e'], c['w'], n)
+            own = _num(a.statistics_.get('UBRE' if objective == 'auto' else objective))
+            tol_own = (1e-8 if rep else 1e-5) * sa
+            if np.isfinite(va) and not (np.isfinite(own) and abs(own - va) <= 10 * tol_own):
+                res['bad'] = dict(reason="statistics_[%r] of the selected model is not the closed form of the counts at mean rate x "
+                                         "exposure" % oname, got=own, closed_form=va, tol=10 * tol_own)
+                return res
+            lam_a = np.ravel(a.lam).astype(float)
+            if not any(np.all(lam_a == lam) for lam in grid):
+                res['bad'] = dict(reason='selected lam is not a grid point', lam=lam_a.tolist()[:3], grid=grid)
+                return res
+            if finite and all(t[3] for t in cand) and len(cand) == len(grid) and settled(a):
+                best = min(finite, key=lambda t: t[1])
+                tolb = (1e-6 if rep else 1e-4) * max(best[2], sa)
+                if np.isfinite(va) and abs(va - best[1]) > 10 * tolb:
+                    res['bad'] = dict(reason='the model returned by gridsearch does not minimise the %s over the grid' % oname,
+                                      selected_lam=float(lam_a[0]), selected_objective=va, best_lam=best[0],
+                                      best_objective=best[1], candidates=[(t[0], t[1]) for t in cand])
+                    return res
+                res['notes'].append('argmin checked')
+            else:
+                res['notes'].append('argmin not checked (a fit did not settle)')
+        # ---- (iii) base-class gridsearch on rates / weights (valid for the deviance-based objective only: on the rates the
+        #      base-class log-likelihood, hence AIC / AICc, is not the counts')
+        if objective in ('auto', 'UBRE'):
+            ds = []
             for (ee, ww) in ((e64, w64), (e32, w32)):
                 terms2, fi = build_terms(pygam, c['mix'], c['lam'], c['ns'])
                 b = pygam.GAM(terms2, distribution='poisson', link='log', tol=1e-10, max_iter=max_iter, fit_intercept=fi)
                 rb = b.gridsearch(c['X'], c['y'] / ee, weights=ww * ee, lam=grid, return_scores=ret_scores,
                                   objective=objective, progress=False)
                 if ret_scores:
-                    sa = sorted(float(v) for v in ra.values())
-                    sb = sorted(float(v) for v in rb.values())
-                    d = _maxrel(sa, sb) if len(sa) == len(sb) else float('inf')
+                    sa_ = sorted(_num(v) for v in ra.values())
+                    sb_ = sorted(_num(v) for v in rb.values())
+                    d = _maxrel(sa_, sb_) if len(sa_) == len(sb_) else float('inf')
                 else:
                     d = max(_maxrel(np.ravel(a.lam), np.ravel(b.lam)), model_compare(a, b, c['X']))
-                res.append(d)
+                ds.append(d)
                 if rep:
-                    res.append(d)
+                    ds.append(d)
                     break
-            return res
-        try:
-            d64, d32 = ev()
-        except Exception as ex:  # noqa
-            ctx.count('gridsearch exception', type(ex).__name__)
-            continue
-        tol = 1e-8 if rep else 1e-4
-        if d64 > 10 * tol and (rep or d32 > 1e-7):
-            d64, d32 = ev()
+            d64, d32 = ds
+            res['d32'] = d32
+            tol = 1e-8 if rep else 1e-4
             if d64 > 10 * tol and (rep or d32 > 1e-7):
-                ctx.fail(st, sig, case_replay(ctx.seed, c, grid=grid, ret=ret_scores, objective=objective),
-                         observed=dict(max_rel_diff=d64, vs_float32_cast=d32), expected='same chosen lam / coefficients / scores',
+                res['bad'] = dict(reason='differs from GAM(poisson, log).gridsearch(X, y/e, weights=w*e)', max_rel_diff=d64,
+                                  vs_float32_cast=d32)
+        return res
+    out = dict(res=None, res2=None, exc=None, fail_exc=None)
+    try:
+        out['res'] = ev()
+    except Exception as ex:  # noqa
+        out['exc'] = type(ex).__name__
+        # an exception of the exposure entry point where the base-class search on the converted data runs is a failing input
+        b = None
+        try:
+            terms2, fi = build_terms(pygam, c['mix'], c['lam'], c['ns'])
+            b = pygam.GAM(terms2, distribution='poisson', link='log', tol=1e-10, max_iter=max_iter, fit_intercept=fi)
+            b.gridsearch(c['X'], c['y'] / e32, weights=w32 * e32, lam=grid, objective='UBRE', progress=False)
+            new_poisson().gridsearch(c['X'], yy, exposure=c['e'], weights=c['w'], lam=grid, return_scores=ret_scores,
+                                     objective=objective, progress=False)
+        except Exception as ex2:  # noqa
+            try:
+                b.predict_mu(c['X'])
+                base_fitted = True
+            except Exception:  # noqa
+                base_fitted = False
+            if base_fitted:
+                out['fail_exc'] = dict(exception=type(ex2).__name__, msg=str(ex2)[:200])
+        return out
+    if out['res']['bad'] is not None:
+        try:
+            out['res2'] = ev()
+        except Exception:  # noqa
+            pass
+    return out
+
+
+def run_gridsearch(ctx, pygam, lits, idxs=None):
+    st = 'gridsearch'
+    ctx.stream(st, 'PoissonGAM.gridsearch(X,y,exposure,weights,lam=grid,objective in auto/UBRE/AIC/AICc): (i) the score of every '
+                   'candidate (return_scores) is the closed-form objective of the counts at e*rate (scipy logpmf / NumPy deviance, '
+                   'reported edof), 1e-8; (ii) the returned model is fitted and its objective is the minimum over the grid of '
+                   'independent PoissonGAM.fit(exposure, weights) candidates, 1e-6; (iii) UBRE/auto: same chosen lam, coef_, scores '
+                   'as GAM(poisson,log).gridsearch(X,y/e,weights=w*e), 1e-8')
+    ncase = 64 if ctx.tier == 'quick' else 256
+    max_iter = 60 if ctx.tier == 'quick' else 150
+    idxs = range(ncase) if idxs is None else idxs
+    jobs = [(ctx.seed, i, ctx.tier, lits) for i in idxs]
+    if len(jobs) > 1:
+        with mp.get_context('fork').Pool(min(16, len(jobs))) as pool:
+            outs = pool.map(gs_eval, jobs)
+    else:
+        outs = [gs_eval(j) for j in jobs]
+    for (_, i, _, _), out in zip(jobs, outs):
+        c, grid, objective, ret_scores, _mi = gs_setup(ctx.seed, i, ctx.tier, lits)
+        sig = case_sig(c, grid=grid, ret=ret_scores, objective=objective)
+        ctx.case(st, sig, nontrivial=c['ek'] not in ('none', 'ones') or c['unit'] != '1')
+        ctx.count('gridsearch objective', '%s%s' % (objective, ' (scores)' if ret_scores else ''))
+        ctx.count('gridsearch exposure unit', c['unit'])
+        rp = case_replay(ctx.seed, c, grid=grid, ret=ret_scores, objective=objective)
+        if out['exc'] is not None:
+            ctx.count('gridsearch exception', out['exc'])
+            if out['fail_exc'] is not None:
+                ctx.fail(st, sig, rp, observed=out['fail_exc'],
+                         expected='PoissonGAM.gridsearch with exposure succeeds whenever the base-class search on (y/e, w*e) does',
                          oracle='GAM(distribution=poisson, link=log).gridsearch(X, y/e, weights=w*e, lam=grid)')
-                continue
-        if d32 > 1e-8:
-            ctx.disagree(st, sig, d32, 0.0, 'gridsearch on (y/cast e, cast w * cast e) differs')
+            continue
+        res, res2 = out['res'], out['res2']
+        for note in res['notes']:
+            ctx.count('gridsearch note', note)
+        if res['bad'] is not None and res2 is not None and res2['bad'] is not None:
+            ctx.fail(st, sig, rp, observed=res2['bad'],
+                     expected='scores = closed-form objective of the counts at e*rate; fitted model minimising it; same search as on '
+                              'rates with weights',
+                     oracle='scipy.stats.poisson.logpmf(y, e*rate), NumPy Poisson deviance of the counts, reported edof; independent '
+                            'PoissonGAM.fit per grid point; GAM(distribution=poisson, link=log).gridsearch(X, y/e, weights=w*e, lam=grid)')
+            continue
+        if res['d32'] > 1e-8:
+            ctx.disagree(st, sig, res['d32'], 0.0, 'gridsearch on (y/cast e, cast w * cast e) differs')
 
 
 def run_dev_identity(ctx, pygam, lits):
@@ -838,12 +1353,18 @@ def _run(ctx):
     lits = harvest_literals(pygam)
     ctx.extra['rule'] = ('cases = product-like sweep of exposure kind (none, ones, twos, integer, dyadic, float32 log-uniform, small, '
                          'large, AST-literal neighbours, non-float32) x weight kind (none, ones, integer, dyadic, float32, with zeros, '
-                         'literal, non-float32) x 11 term mixes x n x lam; distinct = distinct (stream, configuration+index) signatures; '
-                         'non-trivial = exposure not omitted / not all ones (resp. weights for loglik)')
+                         'literal, non-float32) x unit of the exposure (1 with probability 0.4, else 2^-40…2^40, 1e-12…1e12, mixtures '
+                         'of magnitudes within a data set, magnitudes around the constants of the code) x 11 term mixes x n x lam; '
+                         'gridsearch: 4 objectives x return_scores; distinct = distinct (stream, configuration+index) signatures; '
+                         'non-trivial = exposure not omitted / not all ones or in another unit (resp. weights for loglik)')
     ctx.extra['literals'] = lits
     ctx.assumptions.append('scipy.special.gammaln(k+1) = log k! is the normaliser of the Poisson log-pmf (parameter `norm` of the model)')
     ctx.assumptions.append("numpy astype('f') is IEEE round-to-nearest-even to binary32 and np.round is round-half-even "
                            "(validated against the model's exact castF32 / roundHalfEven each run)")
+    ctx.assumptions.append('the null model of the pseudo R^2 is the constant rate mean(y/e) (documented in _estimate_r2: unweighted mean); '
+                           'UBRE uses gamma = 1.4 and adds the scale back (documented defaults of _estimate_GCV_UBRE)')
+    ctx.assumptions.append('the candidate loop of GAM.gridsearch is Search.loop (tied to the code by C10); here its consequence is checked '
+                           'on the real search: a fitted model minimising the closed-form objective')
     ctx.partial.append('fit_eq_base_fit_on_rates / gridsearch_eq_base_gridsearch_on_rates are definitional in the model; '
                        'their content is carried by the streams fit.rates, gridsearch, fit.offset-glm')
     run_np_contracts(ctx, lits)
@@ -868,7 +1389,7 @@ def _replay(ctx, rp):
     st = rp.get('stream') or case.get('stream')
     seed = case.get('seed', rp.get('seed', ctx.seed))
     ctx.seed = seed
-    if st in ('fit.rates', 'predict', 'loglik') and 'idx' in case:
+    if st in ('fit.rates', 'fit.stats', 'predict', 'loglik') and 'idx' in case:
         c = make_case(seed, 'fit.rates', case['idx'], rp.get('tier', ctx.tier), lits, force=case.get('force'))
         run_fit(ctx, pygam, lits, cases=[c])
     elif st == 'fit.noexposure' and 'idx' in case:
